@@ -137,7 +137,16 @@ class ArrayExpr(SingletonExpr):
         # Materialize (not just optimize): pinning the output keys back to
         # this node's name means any dask-side consumer that pairs this graph
         # with our (raw) keys — e.g. ``dask.optimize``'s rebuild — finds them.
-        return Expr.__dask_graph__(_materialize(self))
+        expr = _materialize(self)
+        dsk = Expr.__dask_graph__(expr)
+        # Cull to our output keys: layers may emit tasks nothing consumes, and
+        # dask infers a graph's outputs from its leaves when an expression is
+        # computed together with a non-expression collection (e.g. a Delayed),
+        # so a dead task would be handed back as a result.
+        from dask.optimization import cull
+
+        dsk, _ = cull(dsk, expr.__dask_keys__())
+        return dsk
 
     def _layer(self):
         from dask._expr import Expr
